@@ -1,17 +1,17 @@
 #!/bin/bash
 # usage: tools/confirm_seed.sh C09 m1   — confirms a seeded change in its scratch worktree, then runs the checks against it
 ID=$1; M=$2
-W=/tmp/wt/$ID; S=/tmp/seed/$ID/$M
+W=/tmp/wt/$ID; S=${SEEDBASE:-/tmp/seed}/$ID/$M
 export CARGO_TARGET_DIR=$W/target CARGO_NET_OFFLINE=true
 cd $W || exit 9
 git checkout -q -- . ; git clean -fdq -e target
 git apply --check $S/patch.diff || { echo "APPLY-FAIL"; exit 3; }
 # clean tree: demo must pass
-( bash $S/demo.sh $W >/tmp/seed/$ID/$M/demo_clean.log 2>&1 ); C=$?
+( bash $S/demo.sh $W >$S/demo_clean.log 2>&1 ); C=$?
 git apply $S/patch.diff
-cargo build --offline --examples >/tmp/seed/$ID/$M/build.log 2>&1; B=$?
+cargo build --offline --examples >$S/build.log 2>&1; B=$?
 T=$(cargo test --offline 2>&1 | grep -E "^test result" | tr '\n' ' ')
-( bash $S/demo.sh $W >/tmp/seed/$ID/$M/demo_patched.log 2>&1 ); D=$?
+( bash $S/demo.sh $W >$S/demo_patched.log 2>&1 ); D=$?
 git checkout -q -- . ; git clean -fdq -e target
 echo "seed $ID/$M: build=$B demo_clean_exit=$C demo_patched_exit=$D tests: $T"
 cd /verif && tools/try_patch.sh $S/patch.diff
